@@ -364,6 +364,10 @@ type Spec[T any] struct {
 	Gen      func(t *rapid.T) T
 	Exec     func(c T) Outcome
 	NoShrink bool // expensive cases that minimise themselves (Outcome.ReplayJSON): skip rapid's shrinking
+	// TrackCase writes every case to $VERIF_WORK/current-case.json before it is executed, so that the
+	// driver can name the case when the code under test aborts the whole test binary (fatal runtime
+	// errors such as "concurrent map writes" cannot be recovered).
+	TrackCase bool
 }
 
 // Check runs spec under rapid with the derived seed; a failing case is shrunk by rapid, and the last
@@ -395,6 +399,12 @@ func Check[T any](t *testing.T, spec Spec[T]) {
 		js, err := json.Marshal(c)
 		if err != nil {
 			panic("kit: case not marshalable: " + err.Error())
+		}
+		if spec.TrackCase {
+			if dir := os.Getenv("VERIF_WORK"); dir != "" {
+				w, _ := json.Marshal(map[string]any{"property": C.Property, "sub": spec.Sub, "msg": "the test binary aborted while executing this case", "case": json.RawMessage(js)})
+				_ = os.WriteFile(filepath.Join(dir, "current-case.json"), w, 0o644)
+			}
 		}
 		o := spec.Exec(c)
 		C.Record(js, o)
